@@ -135,7 +135,7 @@ def AbsentUpload (s : State) (u : UploadRef) : Prop :=
   | none => True
   | some id => alLookup id s.uploads = none
 
-/-- the upload `u` names does not exist (both sides answer `NoSuchUpload` since 38336b0; before: fs:unknown-upload-code,
+/-- the upload `u` names does not exist (both sides answer `NoSuchUpload` since 4609ab3; before: fs:unknown-upload-code,
     fs:list-parts-unknown-upload), or it exists and was created for this bucket and key [else fs:upload-not-bound-to-key] -/
 def UploadOk (s : State) (u : UploadRef) (b k : Bytes) : Prop :=
   match u with
@@ -293,7 +293,7 @@ namespace S3V.FsStore
 open S3V.StoreSpec
 
 /-- `upload_part` comparable: the upload does not exist (`NoSuchUpload` on both sides) or was created for this bucket and key
-    [else fs:upload-not-bound-to-key]; any part number (outside 1..10000: `InvalidArgument` on both sides since 531fc88;
+    [else fs:upload-not-bound-to-key]; any part number (outside 1..10000: `InvalidArgument` on both sides since 205d9a8;
     before: fs:part-number-not-validated) -/
 def UploadPartOk (s : State) (b k : Bytes) (u : UploadRef) (_n : Int) : Prop :=
   UploadOk s u b k
@@ -367,7 +367,7 @@ theorem uploadPart_refines (H : Hashes) (dl : Nat) {s : State} (hi : Inv s) {who
     · have hown' : (upOf s id ui).owner ≠ who := hown
       simp [step, StoreSpec.step, hrange, State.verify, hl, hown, hup, hown', hi]
 
-/-- `list_parts` comparable: the upload does not exist (`NoSuchUpload` on both sides since 38336b0; before:
+/-- `list_parts` comparable: the upload does not exist (`NoSuchUpload` on both sides since 4609ab3; before:
     fs:list-parts-unknown-upload) or was created for this bucket and key [else fs:upload-not-bound-to-key] -/
 def ListPartsOk (s : State) (b k : Bytes) (u : UploadRef) : Prop := UploadOk s u b k
 
